@@ -2533,6 +2533,18 @@ def rule_callable_name_has_fallback(model: Model, rule_id: str = 'C04-R9') -> Ru
                     r.fail(g.qualname, f"`{unparse(x)}` without a fallback", g.loc(x),
                            "a condition built on functools.partial(...), on a callable object or on a bound builtin method makes "
                            "make_converter(Annotated[T, cond]) raise AttributeError (building a converter for a documented type never fails)")
+                # the text of a callable's repr holds its address: a name built from it differs from run to run
+                shown = None
+                if isinstance(x, ast.Call) and isinstance(x.func, ast.Name) and x.func.id in ('repr', 'str', 'format') and x.args:
+                    shown = x.args[0]
+                elif isinstance(x, ast.FormattedValue):
+                    shown = x.value
+                if shown is not None and isinstance(shown, ast.Attribute) and unparse(shown.value) == me and shown.attr in callables:
+                    r.instances += 1
+                    r.analysed.add(g.qualname)
+                    r.fail(g.qualname, f"`{unparse(x)[:50]}` puts the repr of a callable into a name", g.loc(x),
+                           "the repr of a function / partial / bound method contains a memory address: the condition's name, and every "
+                           "error message that mentions it, differs between runs (rendering is to be deterministic)")
                 if isinstance(x, ast.Call) and isinstance(x.func, ast.Name) and x.func.id == 'getattr' and len(x.args) >= 2 \
                         and isinstance(x.args[1], ast.Constant) and x.args[1].value == '__name__' and isinstance(x.args[0], ast.Attribute) \
                         and unparse(x.args[0].value) == me and x.args[0].attr in callables:
@@ -3370,4 +3382,139 @@ def rule_specialisation_cache_holds_class(model: Model, rule_id: str = 'C17-R19'
         r.instances += 1
         r.sample({'memo': 'none'})
         r.ok()
+    return r
+
+
+def rule_non_init_factories_run(model: Model, rule_id: str = 'C14-R14') -> RuleResult:
+    """"Fields not supplied take their default, or a fresh product of their default factory, on every path": that includes fields
+    declared ``init=False`` (a plain default is found as a class attribute; a factory has to be *called* for each instance).  Both
+    branches of the generated constructor call the factory of the fields they skip."""
+    r = RuleResult(rule_id, "fields that are no constructor arguments still get a fresh product of their default factory, on both constructor paths", floor=2)
+    init = model.func('pane.classes._make_init.__init__')
+    r.analysed.add(init.qualname)
+
+    def factory_calls(stmts: t.Sequence[ast.stmt]) -> t.List[ast.Call]:
+        return [c for st in stmts for c in ast.walk(st) if isinstance(c, ast.Call) and isinstance(c.func, ast.Attribute) and c.func.attr == 'default_factory']
+
+    # (a) the regular path: the arm that skips non-init fields
+    r.instances += 1
+    skips = [x for x in ast.walk(init.node) if isinstance(x, ast.If) and re.search(r'\bnot \w+\.init\b', unparse(x.test))
+             and any(isinstance(y, ast.Continue) for y in ast.walk(x))]
+    r.sample({'arms skipping non-init fields': [unparse(x.test) for x in skips], 'factory called there': [bool(factory_calls(x.body)) for x in skips]})
+    if skips and all(factory_calls(x.body) for x in skips):
+        r.ok()
+    elif not skips:
+        # no skipping arm: every field goes through the default logic
+        r.ok()
+    else:
+        x = next(x for x in skips if not factory_calls(x.body))
+        r.fail(init.qualname, "a field declared init=False is skipped without calling its default_factory", init.loc(x),
+               "class N: cache: dict = field(init=False, default_factory=dict): N().cache raises AttributeError (so do repr, ==, copy)")
+    # (b) the from-dict path
+    r.instances += 1
+    branch = [x for x in ast.walk(init.node) if isinstance(x, ast.If) and re.search(r'from_dict', unparse(x.test))]
+    has = any(factory_calls(x.body) or factory_calls(x.orelse) for x in branch)
+    r.sample({'from-dict branch calls a factory': has})
+    if has:
+        r.ok()
+    else:
+        r.fail(init.qualname, "the from-dict branch never calls a default_factory", init.loc(branch[0]) if branch else init.loc(),
+               "instances built from mapping or sequence data lack their init=False factory fields as well")
+    return r
+
+
+def rule_specialisations_inherit_dunders(model: Model, rule_id: str = 'C16-R12') -> RuleResult:
+    """``G[int]`` is a fresh subclass of ``G`` with the same fields and options.  Its namespace holds no ``__eq__`` / ``__hash__`` /
+    ordering methods, so a test on the class's own namespace would *generate* them again - over an explicit ``__hash__`` or ``__eq__``
+    written in ``G``: ``G(1) == G[int](1)`` while their hashes differ.  The generation steps are skipped for specialisations."""
+    r = RuleResult(rule_id, "comparison and hash methods are not regenerated for a specialisation G[...] (those of G, explicit ones included, are inherited)", floor=3)
+    f = model.func('pane.classes._process')
+    cfg = cfg_of(model, f)
+    nz = Normalizer(model, f, cfg, param_map=_pm(f))
+    r.analysed.add(f.qualname)
+    marker = re.compile(r"__origin__|__pane_boundvars__|PANE_BOUNDVARS")
+    # an early exit taken for specialisations dominates nothing; look at each generation call: is it unreachable for a specialisation?
+    guards = []
+    for n in cfg.live_nodes():
+        if n.kind == 'cond' and n.ast is not None and marker.search(unparse(n.ast)):
+            text, pos = nz.literal(n.ast, n)
+            guards.append((n, text, pos))
+    for c in walk_no_nested(f.node):
+        if not (isinstance(c, ast.Call) and isinstance(c.func, ast.Name) and c.func.id in ('_maybe_make_hash', '_make_eq', '_make_ord')):
+            continue
+        r.instances += 1
+        n = cfg.node_of(c)
+        skipped = False
+        for (g, _text, _pos) in guards:
+            for lb in ('T', 'F'):
+                # the call is only reached through one arm of a test of the marker
+                if g.edge(lb) and n is not None and cfg.edge_dominates(g, lb, n):
+                    skipped = True
+        # ... or an earlier statement of the function returns for specialisations (`if <marker test>: return cls`)
+        cst = next((a_ for a_ in [c] + list(ancestors(c)) if a_ in f.node.body), None)
+        if cst is not None:
+            for st in f.node.body[:f.node.body.index(cst)]:
+                if isinstance(st, ast.If) and marker.search(unparse(st.test)) and st.body and isinstance(st.body[-1], ast.Return):
+                    skipped = True
+        r.sample({c.func.id: 'not reached for specialisations' if skipped else 'also run for G[...]'})
+        if skipped:
+            r.ok()
+        else:
+            r.fail(f.qualname, f"{c.func.id} also runs for a specialisation G[...]", f.loc(c),
+                   "an explicit __hash__ / __eq__ / ordering method of a generic class is replaced by a generated one in G[int]: "
+                   "G(1) == G[int](1) but hash(G(1)) != hash(G[int](1))")
+    if r.instances < 3:
+        raise AnalysisError('_process: generation calls not found')
+    return r
+
+
+def rule_eq_reads_root_origin(model: Model, rule_id: str = 'C16-R13') -> RuleResult:
+    """Equality ignores generic parameters through *any* number of re-parametrisations: ``P[T, int][str]`` is a specialisation of a
+    specialisation; the class compared is the generic class at the end of the chain of own-namespace ``__origin__`` markers."""
+    r = RuleResult(rule_id, "equality follows the chain of __origin__ markers to the generic class itself", floor=1)
+    f = model.func('pane.classes._make_eq.__eq__')
+    r.analysed.add(f.qualname)
+    r.instances += 1
+    mod = f.module
+    helpers = []
+    for c in ast.walk(f.node):
+        if isinstance(c, ast.Call):
+            g = model.functions.get(model.resolve(c.func, mod, f) or '')
+            if g is not None and g.module is mod and '__origin__' in unparse(g.node):
+                helpers.append(g)
+    loops = [g for g in helpers if any(isinstance(x, (ast.While, ast.For)) for x in ast.walk(g.node))
+             or any(isinstance(x, ast.Call) and model.resolve(x.func, mod, g) == g.qualname for x in ast.walk(g.node))]
+    own_loop = any(isinstance(x, (ast.While, ast.For)) and '__origin__' in unparse(x) for x in ast.walk(f.node))
+    r.sample({'helpers reading __origin__': [g.qualname for g in helpers], 'follows the chain': bool(loops) or own_loop})
+    if loops or own_loop:
+        r.ok()
+    else:
+        r.fail(f.qualname, "the origin marker is read once", f.loc(),
+               "P[T, int][str]('s', 1) != P[str, int]('s', 1) and != P('s', 1): the origin of a re-parametrised specialisation is the "
+               "intermediate class, not the generic class")
+    return r
+
+
+def rule_none_argument_is_nonetype(model: Model, rule_id: str = 'C17-R20') -> RuleResult:
+    """``Box[None]`` means ``Box[NoneType]`` (as for every generic of ``typing``): the arguments bound to the type variables are
+    types, and a bare ``None`` has no converter ("Unsupported special type 'None'")."""
+    r = RuleResult(rule_id, "a None given as a type argument of a generic dataclass is bound as NoneType", floor=1)
+    fs = [model.func('pane.classes.PaneBase.__class_getitem__'), model.func('pane.classes._make_subclass')]
+    r.instances += 1
+    hit = None
+    for f in fs:
+        r.analysed.add(f.qualname)
+        for x in ast.walk(f.node):
+            if isinstance(x, (ast.IfExp, ast.If)) and re.search(r'\bis None\b|None is\b|== None', unparse(x.test)) \
+                    and re.search(r'type\(None\)|NoneType', unparse(x)):
+                hit = unparse(x)[:80]
+            if isinstance(x, ast.Dict) and any(isinstance(k, ast.Constant) and k.value is None for k in x.keys):
+                hit = unparse(x)[:80]
+    r.sample({'None replaced by its type': hit})
+    if hit:
+        r.ok()
+    else:
+        r.fail(fs[0].qualname, "None is bound to the type variable as it is", fs[0].loc(),
+               "Box[None].from_data({'x': None}) raises TypeError (Unsupported special type 'None') where Optional[T] and typing's own "
+               "generics accept None as a type argument")
     return r
